@@ -7,6 +7,9 @@ REQUIRED = [
     "DaeVerif.C05.Props.copy_loop_identity",
     "DaeVerif.C05.Props.take_then_remainder",
     "DaeVerif.C05.Props.read_conserves",
+    "DaeVerif.C05.Props.poisoned_copy_delivers_buffer_only",
+    "DaeVerif.C05.Props.detection_fuel_sufficient",
+    "DaeVerif.C05.Props.detection_fuel_monotone",
     "DaeVerif.C05.Props.interleaving_conserves",
     "DaeVerif.C05.Props.detection_hands_over_every_byte",
     "DaeVerif.C05.Props.detection_total",
@@ -40,12 +43,14 @@ def run(ctx):
         "stands in for the kernel socket in the whole-connection tie; real sockets (writev, TIOCINQ, splice) are exercised by the loopback tie",
         "testing/synctest virtual clock = time.Now()/timers seen by handleConn, the sniffer and relayCore",
         "oracles passed to the model per connection, computed with the real functions: dns.Msg.Unpack of the first frame, "
-        "isLikelyHttpOrTLSPrefix of the prefetched bytes, ErrNeedMore of SniffTls/SniffHttp at every cumulative segment length",
+        "isLikelyHttpOrTLSPrefix of the prefetched bytes, the real SniffTcp's need-more verdict at the buffer lengths the real sniffer held "
+        "(deadline-free probe conn), and the sizes of the conn reads the real sniffer issued (Buffer.ReadFromOnce offers cap-len)",
         "go/ast deadline-path extractor (harness/overlay/control/c05_paths_test.go): structured path enumeration, loops unrolled once, "
         "receiver identity = printed expression; the table it writes is what `decide` closes",
-        "sniffer reads are modelled as unbounded (segments inside the sniffing window are kept <= 512 bytes by the generator: "
-        "Buffer.ReadFromOnce always offers >= 512 bytes)",
-        "the destination accepts every write (a healthy peer); write errors are exercised only through peer close/reset",
+        "sniffer reads are bounded by the observed read sizes (Cfg.offer); need-more above 4096 buffered bytes relies on the verdict being monotone in the buffer length",
+        "in the timed model the destination accepts every write; write failures are exercised on real sockets only (c05tcp destination reset, "
+        "asserting only 'received is a prefix of sent'); latency added by the kernel copy paths is not observed by any stream "
+        "(real-socket streams compare bytes, the timed streams run over in-memory conns)",
     ]
     # 1. harness binary first: the deadline-path table is regenerated from the repository under check
     binp = ctx.go_test_build("control", ["control/c05_test.go", "control/c05_paths_test.go", "control/c05_tcp_test.go", "control/c05_wrap_test.go", "control/c05_e2e_test.go"], "c05")
@@ -102,6 +107,28 @@ def run(ctx):
         op_lines = read_lines(ops)
         impl_lines = read_lines(impl)
         evaluations += len(op_lines)
+        notes = 0
+        kept = []
+        for m in mism:
+            ln, op, im, mo = m
+            if stream in ("c05conn", "c05par") and ln > 0 and not im.startswith("crash:"):
+                fi, fm = fields(im), fields(mo)
+                try:
+                    earlier = fi["dial"] != "-" and fm["dial"] != "-" and int(fi["dial"]) < int(fm["dial"])
+                except (KeyError, ValueError):
+                    earlier = False
+                same_bytes = all(fi.get(k, "").split("#")[-1] == fm.get(k, "").split("#")[-1] for k in ("up", "cl"))
+                if earlier and same_bytes and fi.get("armed") == "0":
+                    # the property bounds the relay start only from above: starting EARLIER than the model with both
+                    # byte streams intact is not a violation (times shift with the dial and are not compared then)
+                    notes += 1
+                    continue
+            kept.append(m)
+        if notes:
+            ctx.say(f"NOTE {stream}: {notes} connection(s) dialled earlier than the model's detection end with both byte streams "
+                    "intact — allowed by the property (upper bound only); not counted as violations")
+            ctx.cov.setdefault("notes", {})[stream + ".dialled-earlier-than-model"] = notes
+        mism = kept
         for ln, op, im, mo in mism[:8]:
             what = f"implementation differs from proved model ({stream} line {ln}): impl `{im[:300]}` model `{mo[:300]}`"
             if stream in ("c05conn", "c05par") and ln > 0:
@@ -124,6 +151,13 @@ def run(ctx):
         # property-level oracle directly on the implementation's answers (independent of the model)
         n_crash = 0
         for op, im in zip(op_lines, impl_lines):
+            if im.startswith("crash:") and ("nil pointer dereference" in im or "interface conversion" in im):
+                # the harness drives handleConn with a minimal ControlPlane and an in-memory conn: a nil field or a
+                # failed type assertion on the harness's own objects says nothing about the property
+                ctx.say("HARNESS-FAILED: the connection handler panicked on an object the harness built "
+                        "(a ControlPlane field it leaves zero, or the concrete type of its conn): " + im[:300] +
+                        " — cannot judge C05; extend c05ControlPlane/c05Conn")
+                return 2
             if im.startswith("crash:"):
                 n_crash += 1
                 if n_crash <= 2:   # a few witnesses are enough; keep room for the other reports
@@ -151,7 +185,7 @@ def run(ctx):
     if table_broken and not ctx.violations:
         # a broken path table: say which path
         bad = ctx.cov["deadline_paths"]["uncleared"]
-        bad = [b for b in bad if not ("recv=dir.dst" in b and "arg=time.Now().Add(c.halfCloseTimeout)" in b)]
+        bad = [b for b in bad if not (b.startswith("relayCore.") and "halfCloseTimeout" in b)]
         if bad:
             ctx.proof_failures.append("deadline path(s) without a clearing call: " + " | ".join(bad)[:1500])
     ctx.samples = samples
@@ -159,11 +193,11 @@ def run(ctx):
     ctx.assumptions = [
         "segment times of a peer never go backwards; two events of different goroutines never share a virtual instant "
         "(scripts whose event coincides with an armed deadline are discarded and counted)",
-        "the upstream does not end its stream before the detection windows are over (generator constraint; the model covers it, "
-        "the tie would be racing at the dial instant)",
+        "a connection whose upstream ended before the OBSERVED dial is discarded after the run (the two directions would race in "
+        "one virtual instant; about 8 % of the generated connections, counted as discard.upstream-ended-before-dial)",
     ]
     return ctx.finish(
-        rule="c05conn: one op = one whole proxied connection through the real handleConn (client script, upstream script, port, "
+        rule="six streams — c05conn: one op = one whole proxied connection through the real handleConn (client script, upstream script, port, "
              "sniffing window, peer CloseWrite support); c05tcp: one op = one directional copy of defaultRelayCopyEngine over real "
              "loopback TCP sockets or white-box wrapper states; distinct_nontrivial = distinct op lines",
         evaluations=evaluations, distinct=len(distinct))
